@@ -2,6 +2,8 @@
    status add up.  Only statements; every proof is `exact <lemma>`.
    The whole-run part of C06 (output grammar on hostile trees) is a separate part. *)
 From PV Require Import Lib.Bytes Lib.Utf8 Model.Escape Model.Logger Proofs.Escape Proofs.Logger Proofs.LoggerInv Proofs.LoggerOut.
+From PV Require Model.Lines Spec.OutputGrammar Spec.LinesSpec.
+From PV Require Import Proofs.LoggerLines Proofs.LoggerLinenos.
 Open Scope N_scope.
 
 (* textproc.XPrint = NewByteSet("\n\t -~"): newline (10), tab (9), 0x20..0x7E.
@@ -66,6 +68,87 @@ Theorem C06_logger_never_panics : forall o evs,
   l_panicked (log_run o evs) = false.
 Proof. exact logger_never_panics. Qed.
 Print Assumptions C06_logger_never_panics.
+
+(* ---------- line shape: the Logger speaks the grammar the whole-run part recognises ---------- *)
+
+(* Spec/OutputGrammar.v `classify gcc line` is the executable recogniser that
+   harness/c06run.go applies to every stdout line of the real binary.
+   clean s        = s contains no newline;  unlines ls = concatenation of (x ++ "\n") for x in ls
+   clean_event ev = the strings of the event carry no stray newline: messages, explanation
+                    lines, action descriptions, argv; physical lines (raws, fix texts) have a
+                    newline at most as their last byte (C09_raws_nonempty_nl); file names contain
+                    neither newline nor ':' (the assumption of the whole-run part as well).
+   For EVERY option record and EVERY list of such events, stdout is a sequence of complete
+   lines and the recogniser knows every one of them. *)
+Theorem C06_logger_lines_recognised : forall o evs,
+  Forall clean_event evs ->
+  exists ls, sw_out (l_out (log_run o evs)) = unlines ls /\
+             Forall (fun x => clean x /\ OutputGrammar.classify (lo_gcc o) x <> OutputGrammar.KUnknown) ls.
+Proof. exact logger_lines_recognised. Qed.
+Print Assumptions C06_logger_lines_recognised.
+
+(* the line Logf writes for (level, file, linenos, message):  "LEVEL: [file[:linenos]: ]message",
+   with -g "[file[:linenos]: ]level: message", escaped; one line, and a diagnostic to the recogniser.
+   lnos_ok n: the bytes of a Linenos text (digits, '-', "EOF"): printable, no ':' ' ' newline *)
+Theorem C06_diag_line_shape : forall o lv f n m,
+  clean f -> ~ In 58 f -> clean m -> lnos_ok n ->
+  exists x, escape_printable (format_diag o lv f (if nonempty_list f then n else []) m) = x ++ [10] /\
+            clean x /\ OutputGrammar.classify (lo_gcc o) x <> OutputGrammar.KUnknown.
+Proof. exact diag_line_shape. Qed.
+Print Assumptions C06_diag_line_shape.
+
+(* the cleanliness hypothesis is needed: a message containing a newline continues on a
+   second line, which is no line of the grammar *)
+Definition ex_nl_evs : list event := [ EvDiag (mk_line 1 [102] 3 [[65; 10]]) LWarn [120] [97; 10; 98] ].
+Example C06_newline_in_message_breaks_shape :
+  sw_out (l_out (log_run (mk_opts false false false false false false []) ex_nl_evs)) =
+    [87; 65; 82; 78; 58; 32; 102; 58; 51; 58; 32; 97; 10; 98; 10] (* WARN: f:3: a / b *) /\
+  OutputGrammar.classify false [98] = OutputGrammar.KUnknown.
+Proof. split; vm_compute; reflexivity. Qed.
+
+(* ---------- line numbers ---------- *)
+
+(* For every file content s and both loaders (Model/Lines.v convert_to_logical_lines, C09), for
+   every loaded line l: with n = the number of physical lines of the file (C09_raws_partition:
+   they concatenate to s), first = Location.lineno and last = first + len(raw) - 1:
+   1 <= first <= last <= n, and Line.Linenos prints "first" for a single physical line and
+   "first--last" for a continuation line *)
+Theorem C06_linenos_in_range : forall s mk ls e,
+  Lines.convert_to_logical_lines s mk = Lines.Ok (ls, e) ->
+  forall l, In l ls -> forall id file,
+    let n := N.of_nat (length (flat_map Lines.raws ls)) in
+    let first := Lines.lineno l in
+    let last := first + N.of_nat (length (Lines.raws l)) - 1 in
+    1 <= first /\ first <= last /\ last <= n /\
+    linenos (of_loaded id file l) =
+      if Nat.eqb (length (Lines.raws l)) 1 then dec_of_N first
+      else dec_of_N first ++ [45; 45] ++ dec_of_N last.
+Proof. exact linenos_in_range. Qed.
+Print Assumptions C06_linenos_in_range.
+
+(* the pseudo-lines: NewLineWhole (lineno 0) prints no number -- "LEVEL: path: message" --
+   and NewLineEOF (lineno -1) prints "EOF"; neither is a number in 1..n, by design *)
+Theorem C06_linenos_pseudo : forall id file,
+  linenos (line_whole id file) = [] /\ linenos (line_eof id file) = [69; 79; 70].
+Proof. exact linenos_pseudo. Qed.
+Print Assumptions C06_linenos_pseudo.
+
+(* Autofix.affectedLinenos: if every action carries line number 0 or one in [lo, hi]
+   (Describef uses first + rawIndex), the diagnostic of the fix is printed with the line's own
+   Linenos, with "a" or with "a--b", lo <= a < b <= hi *)
+Theorem C06_affected_linenos_in_range : forall ln actions lo hi,
+  (1 <= lo)%Z -> Forall (fun a : str * Z => snd a = 0%Z \/ (lo <= snd a <= hi)%Z) actions ->
+  affected_linenos ln actions = linenos ln \/
+  (exists a, (lo <= a <= hi)%Z /\ affected_linenos ln actions = dec_of_Z a) \/
+  (exists a b, (lo <= a)%Z /\ (a < b)%Z /\ (b <= hi)%Z /\
+               affected_linenos ln actions = dec_of_Z a ++ [45; 45] ++ dec_of_Z b).
+Proof. exact affected_linenos_in_range. Qed.
+Print Assumptions C06_affected_linenos_in_range.
+
+(* the loader's physical lines meet the hypothesis of C06_logger_lines_recognised *)
+Theorem C06_loaded_raws_are_clean : forall r, LinesSpec.raw_ok r = true -> raw_clean r.
+Proof. exact raw_ok_raw_clean. Qed.
+Print Assumptions C06_loaded_raws_are_clean.
 
 (* non-vacuity: ESC, an invalid byte and a CR in a message; one warning; -Werror *)
 Definition ex06_line : line := mk_line 1 [102; 46; 109; 107] 3 [[65; 27; 10]].
